@@ -5,7 +5,7 @@ set -u
 P="$(readlink -f "$1")"; shift
 cd /repo || exit 2
 if ! git diff --quiet; then echo "/repo has uncommitted changes"; exit 2; fi
-git apply "$P" || { echo "patch does not apply: $P"; exit 2; }
+{ git apply "$P" 2>/dev/null || patch -p1 -s --fuzz=3 --no-backup-if-mismatch < "$P"; } || { echo "patch does not apply: $P"; git checkout -q -- .; git clean -fdq; exit 2; }
 trap 'git -C /repo checkout -- . ; git -C /repo clean -fdq' EXIT
 for c in "$@"; do
   out=$(cd /verif && VERIF_NO_EVIDENCE=1 ./check "$c" "${TIER:-quick}" 2>&1); rc=$?
